@@ -344,6 +344,11 @@ pub fn gen_input(g: &mut G, s: &MState, pending: &mut Vec<(u128, MTimer)>, base_
             vec![]
         } else if g.chance(3) {
             vec![1u8; (s.cfg.max_packet_size + 1).min(80000) as usize]
+        } else if s.cfg.max_packet_size > 65535 && g.chance(15) {
+            // longer than a u16 length prefix can describe
+            let mut v = vec![g.below(5) as u8, g.below(4) as u8];
+            v.resize(65536 + g.below(2000) as usize, 7);
+            v
         } else {
             gen_item(g)
         };
